@@ -36,6 +36,10 @@ func (e *symEnv) resolve(x ast.Expr) (string, bool) {
 			if f, ok := sel.Obj().(*types.Var); ok && f.Embedded() {
 				return base, true
 			}
+			if sel.Kind() != types.FieldVal {
+				// a method of the value: counts as a use of the value itself
+				return base, true
+			}
 		}
 		return base + "." + x.Sel.Name, true
 	case *ast.IndexExpr:
